@@ -321,13 +321,14 @@ def repeatStep (ms : MacroSem) (subs : SubEnv) (fuel : Nat) (c : ILPure) (body :
   | .bool false => .ok σ
   | _ => .error (.sort "REPEAT condition")
 
-def callStep (ms : MacroSem) (subs : SubEnv) (fuel : Nat) (f : String) (σ : MState) (vs : List Val) : Except Stuck MState :=
+def callStep (ms : MacroSem) (subs : SubEnv) (fuel : Nat) (f : String) (args : List ILPure) (σ : MState) (vs : List Val) :
+    Except Stuck MState :=
   if f.startsWith "hex_" then
     match lookupS (f.drop 4).toString subs with
     | some (ps, body) => do
         let σ' ← execIL ms subs fuel body { σ with params := ps.zip vs }
         .ok { σ' with params := σ.params }
-    | none => .error (.undef f)
+    | none => if f == "hex_set_usr_field" then setUsrFieldIL σ args vs else .error (.undef f)
   else if f == "HEX_STORE_SLOT_CANCELLED" then
     .ok { σ with locals := setLocal σ.locals "$slot_cancelled" (.bool true) }
   else if f == "HEX_GET_NPC" then
@@ -351,7 +352,7 @@ theorem execIL_branch (fuel c t e σ) : execIL ms subs (fuel+1) (.branch c t e) 
 theorem execIL_repeat (fuel c body σ) : execIL ms subs (fuel+1) (.repeat_ c body) σ =
     (evalPure ms σ [] c >>= repeatStep ms subs fuel c body σ) := by rw [execIL]; rfl
 theorem execIL_call (fuel f args σ) : execIL ms subs (fuel+1) (.call f args) σ =
-    (evalPures ms σ [] args >>= callStep ms subs fuel f σ) := by rw [execIL]; rfl
+    (evalPures ms σ [] args >>= callStep ms subs fuel f args σ) := by rw [execIL]; rfl
 theorem execSeq_nil (fuel σ) : execSeq ms subs (fuel+1) [] σ = .ok σ := by rw [execSeq]
 theorem execSeq_cons (fuel e es σ) : execSeq ms subs (fuel+1) (e :: es) σ =
     (execIL ms subs fuel e σ >>= fun σ' => execSeq ms subs fuel es σ') := by rw [execSeq]
@@ -424,12 +425,19 @@ theorem EEqAt.branch {σ : MState} {c c' : ILPure} {t t' e e' : ILEffect} (hc : 
     · exact he f
     · rfl
 
-theorem EEqAt.call (f : String) {σ : MState} {as as' : List ILPure} (h : PsEqAt ms σ [] as as') :
+/-- a call depends on its argument list through the argument VALUES and — for the specification-level routines
+    (`hex_set_usr_field`), whose field is read from the syntax of a pass-through argument — through the identifiers
+    the pass-through arguments consist of (`hx`) -/
+theorem EEqAt.call (f : String) {σ : MState} {as as' : List ILPure} (h : PsEqAt ms σ [] as as')
+    (hx : as.map extName = as'.map extName) :
     EEqAt ms subs σ (.call f as) (.call f as') := by
   intro fuel
   cases fuel with
   | zero => rw [execIL_zero, execIL_zero]
-  | succ k => rw [execIL_call, execIL_call]; exact toOption_bind_congr h (fun _ => rfl)
+  | succ k =>
+    rw [execIL_call, execIL_call]
+    refine toOption_bind_congr h (fun vs => ?_)
+    simp only [callStep, setUsrFieldIL, hx]
 
 theorem ESeqEqAt.cons {σ : MState} {e e' : ILEffect} {es es' : List ILEffect} (h : EEqAt ms subs σ e e')
     (hs : ∀ σ₁, ESeqEqAt ms subs σ₁ es es') : ESeqEqAt ms subs σ (e :: es) (e' :: es') := by
@@ -484,8 +492,9 @@ theorem EEquiv.branch {c c' : ILPure} {t t' e e' : ILEffect} (hc : PEquiv c c') 
 theorem EEquiv.repeat_ {c c' : ILPure} {b b' : ILEffect} (hc : PEquiv c c') (hb : EEquiv b b') :
     EEquiv (.repeat_ c b) (.repeat_ c' b') :=
   fun ms subs σ => EEqAt.repeat_ (fun σ => hc ms σ []) (fun σ => hb ms subs σ) σ
-theorem EEquiv.call (f : String) {as as' : List ILPure} (h : ∀ ms σ, PsEqAt ms σ [] as as') :
-    EEquiv (.call f as) (.call f as') := fun ms _ σ => EEqAt.call f (h ms σ)
+theorem EEquiv.call (f : String) {as as' : List ILPure} (h : ∀ ms σ, PsEqAt ms σ [] as as')
+    (hx : as.map extName = as'.map extName) :
+    EEquiv (.call f as) (.call f as') := fun ms _ σ => EEqAt.call f (h ms σ) hx
 
 /-! ## non-vacuity -/
 
